@@ -13,7 +13,8 @@ from vf.core import derive_seed, run_given
 ID = "C02"
 RULE = (
     "Documents: every supported fixture (69), the bundled template, and documents produced by the editing API "
-    "(generated writes/merges/styles/formats). History: k = 2 (quick) / 3 (thorough) consecutive save/open cycles; a "
+    "(generated writes/merges/styles/formats). History: k = 2 (quick) / 3 (thorough) consecutive save/open cycles, as a single file and "
+    "(10 fixtures quick / all thorough) in package-folder form into a fresh folder per cycle or always the same folder incl. two saves from one handle; a "
     "Hypothesis-chosen boolean vector says which read-only accessors (formula, formatted_value, style, border, "
     "row_height, col_width) are called on which sample of cells before each save. Oracle: whole-document snapshot "
     "(sheets, tables, order, dimensions, merge_ranges, per cell class/value/formula/formatted value/merge state/"
@@ -91,8 +92,17 @@ def check_resave(ctx, case):
                 ok = ctx.guard(("C02", "accessors", cycle), case, lambda: (touch(doc, case["access"], case["mod"]), True)[1])
                 if ok is None:
                     return
-                path = tmp / f"cycle{cycle}.numbers"
-                ok = ctx.guard(("C02", "save_raised", cycle), case, lambda: (doc.save(path), True)[1])
+                pk = case.get("package")
+                path = tmp / ("pkg.numbers" if pk == "same" else f"cycle{cycle}.numbers")
+                if pk:
+                    # package-folder form: into a fresh folder per cycle, or always the same folder (cycle 0 creates it and saves
+                    # a second time from the same handle, later cycles overwrite the folder the document was opened from)
+                    ok = ctx.guard(("C02", "package_save_raised", pk, "first" if cycle == 0 else "later"), case, lambda: (doc.save(path, package=True), True)[1])
+                    if ok is not None and pk == "same" and cycle == 0:
+                        ok = ctx.guard(("C02", "package_save_raised", pk, "repeat"), case, lambda: (doc.save(path, package=True), True)[1])
+                    ctx.count("package_saves")
+                else:
+                    ok = ctx.guard(("C02", "save_raised", cycle), case, lambda: (doc.save(path), True)[1])
                 if ok is None:
                     return
             if cycle == 0:
@@ -147,13 +157,20 @@ def template_path():
     return str(DEFAULT_DOCUMENT)
 
 
+# fixtures saved in package-folder form by the quick tier (all of them by the thorough tier): plain, wrapped-package zip,
+# package folders, with images, with many tables
+PACKAGE_QUICK = {"test-1.numbers", "issue-32.numbers", "test-7.numbers", "test-5.numbers", "issue-69.numbers", "test-styles.numbers", "issue-3.numbers",
+                 "test-formats.numbers", "simple-func.numbers", "test-issue-76.numbers"}
+
+
 def tasks(tier, seed):
     t = []
     big = {"custom-format-stress.numbers", "test-6.numbers", "issue-67.numbers", "duration_112.numbers", "issue-35.numbers"}
     # big fixtures first so that they do not end up last in the pool
     for name in sorted(fixtures.SUPPORTED, key=lambda n: n not in big):
+        pk = ["fresh", "same"] if (tier != "quick" and name not in big) or name in PACKAGE_QUICK else []
         t.append(("fixture", {"fixture": name, "n": (0 if name in big else 1) if tier == "quick" else 4, "cycles": 2 if tier == "quick" else 3,
-                              "seed": derive_seed(seed, "c02", name)}))
+                              "seed": derive_seed(seed, "c02", name), "package": pk}))
     t.append(("template", {"cycles": 3}))
     for k in range(8 if tier == "quick" else 16):
         t.append(("generated", {"n": 2 if tier == "quick" else 12, "seed": derive_seed(seed, "c02g", k), "cycles": 2 if tier == "quick" else 3}))
@@ -172,6 +189,8 @@ def run_task(ctx, lane, **kw):
             check_resave(ctx, {"lane": "resave", "fixture": kw["fixture"], "cycles": kw["cycles"], "access": access, "mod": mod})
 
         body(([True] * 6, 1))  # every accessor on every cell
+        for pk in kw.get("package", ()):
+            check_resave(ctx, {"lane": "resave", "fixture": kw["fixture"], "cycles": 2, "access": [False] * 6, "mod": 1, "package": pk})
         if kw["n"]:
             _run_plain(ctx, strat, body, kw["n"], kw["seed"])
     elif lane == "template":
